@@ -145,6 +145,14 @@ func (e *FnEnc) call(v ssa.Value, c *ssa.CallCommon, in ssa.Instruction) {
 			e.pureCall(v, name, args)
 			return
 		}
+		if inModule(f) && f.Blocks != nil && !e.W.NoHeapEffect(name) {
+			// a module function without a contract: its inferred write set instead of "everything"
+			e.havocEffects(e.W.EffectsOf(f), name, args...)
+			if v != nil {
+				e.havocVal(v)
+			}
+			return
+		}
 		e.havocCall(v, name, args, in)
 		return
 	}
